@@ -43,7 +43,7 @@ Definition rows_same (ordered : bool) (a b : list row) : bool :=
   if ordered then keys_eqb a b else keys_eqb (sort_keys a) (sort_keys b).
 
 (* ---- ranges ---- *)
-Record rcase := { rc_tbl : nat; rc_cols : list nat; rc_nullable : list bool; rc_rs : list colrange }.
+Record rcase := { rc_tbl : nat; rc_cols : list nat; rc_nullable : list bool; rc_encs : list (Z * Z); rc_rs : list colrange }.
 Record robs := { ro_n : N; ro_fields : list field; ro_tup : key; ro_contig : bool; ro_skip : bool;
                  ro_all : list key; ro_visit : list key }.
 
@@ -71,7 +71,7 @@ Definition model_range (tables : list (list row)) (c : rcase) : robs :=
   | None => {| ro_n := 0; ro_fields := []; ro_tup := []; ro_contig := false; ro_skip := false;
                ro_all := keys; ro_visit := [] |}
   | Some r => {| ro_n := 1; ro_fields := r_fields r; ro_tup := r_tup r; ro_contig := r_contig r; ro_skip := r_skip r;
-                 ro_all := keys; ro_visit := iter_range (rc_nullable c) keys r |}
+                 ro_all := keys; ro_visit := iter_range (rc_nullable c) (rc_encs c) keys r |}
   end.
 
 (* the property for one range: the stored index is the sorted projection of the table, and the scan returned
@@ -84,11 +84,17 @@ Definition range_ok (tables : list (list row)) (c : rcase) (o : robs) : bool :=
 (* ---- queries ---- *)
 Inductive query :=
 | QSel (tbl : nat) (snap : bool) (p : pred) (ordered : bool) (ix : option (list nat * list bool))
+       (proj : option (list nat)) (distinct : bool) (limit : option nat)
        (* SELECT * FROM tbl [AS OF commit] WHERE p [ORDER BY pk]; ix = key columns / nullability of the index the
           model evaluates the predicate through, when the predicate has the shape of an index lookup *)
+| QGroup (tbl : nat) (snap : bool) (col : nat)       (* SELECT col, COUNT( * ) FROM tbl GROUP BY col *)
 | QCount (tbl : nat) (snap : bool) (keyless : bool) (col : option nat)
-| QJoin (plan : N) (left_outer : bool) (snap : bool) (lt rt : nat) (lc rc : nat) (rwidth : nat).
-       (* SELECT l.*, r.* FROM lt l [LEFT] JOIN rt r ON l.lc = r.rc; plan: 0 merge join, 1 lookup join, else other *)
+| QJoin (plan : N) (left_outer : bool) (snap : bool) (lt rt : nat) (lc rc : nat) (rwidth : nat)
+        (ord : option (bool * list nat * list nat)).
+       (* SELECT l.*, r.* FROM lt l [LEFT] JOIN rt r ON l.lc = r.rc; plan: 0 merge join, 1 lookup join, else other.
+          ord (merge joins): whether the plan puts r on the iterator's left side, and the key columns (indexed columns
+          then primary key) of the indexes the plan reads the iterator's left and right side from; when given, the
+          model's row ORDER is compared with dolt's *)
 
 Record qobs := { q_rows : list row; q_ref : bool; q_err : bool }.
 
@@ -135,7 +141,7 @@ Definition pred_ranges (icols : list nat) (p : pred) : option (list (list colran
 Definition via_index (cols : list nat) (nullable : list bool) (rss : list (list colrange)) (rows : list row) : list row :=
   let keys := index_keys cols rows in
   let visited := flat_map (fun rs => match build_range (length cols) rs with
-                                      | Some r => iter_range nullable keys r
+                                      | Some r => iter_range nullable [] keys r
                                       | None => [] end) rss in
   filter (fun r => existsb (key_eqb (project cols r)) visited) rows.
 
@@ -147,6 +153,20 @@ Fixpoint insert_side (x : cell * row) (l : side) : side :=
   end.
 Definition sort_side (s : side) : side := fold_right insert_side [] s.
 
+Fixpoint insert_by (cols : list nat) (x : row) (l : list row) : list row :=
+  match l with
+  | [] => [x]
+  | y :: l' => if key_leb (project cols x) (project cols y) then x :: l else y :: insert_by cols x l'
+  end.
+Definition sort_rows_by (cols : list nat) (rows : list row) : list row := fold_right (insert_by cols) [] rows.
+
+(* the state machine's answer; the fuel is ample (Proofs: the result does not depend on it) *)
+Definition run_sm (lo : bool) (L R : side) : list (row * option row) :=
+  match merge_join_sm (3 * (length L + 2) * (length R + 4)) lo L R with Some o => o | None => [] end.
+
+Definition flip_rows (l : list (row * option row)) : list row :=
+  map (fun p => match snd p with Some x => x ++ fst p | None => fst p end) l.
+
 Definition flat_rows (rwidth : nat) (l : list (row * option row)) : list row :=
   map (fun p => fst p ++ match snd p with Some r => r | None => repeat None rwidth end) l.
 
@@ -154,34 +174,48 @@ Definition tables_of (i : input) (snap : bool) := if snap then i_snap i else i_c
 
 Definition model_query (i : input) (q : query) : list row :=
   match q with
-  | QSel tbl snap p _ ix =>
+  | QSel tbl snap p _ ix proj dis lim =>
       let rows := nth tbl (tables_of i snap) [] in
-      match ix with
-      | Some (cols, nullable) =>
-          match pred_ranges cols p with
-          | Some rss => via_index cols nullable rss rows
-          | None => select p rows
-          end
-      | None => select p rows
-      end
+      shape proj dis lim
+        match ix with
+        | Some (cols, nullable) =>
+            match pred_ranges cols p with
+            | Some rss => via_index cols nullable rss rows
+            | None => select p rows
+            end
+        | None => select p rows
+        end
+  | QGroup tbl snap c => group_count c (nth tbl (tables_of i snap) [])
   | QCount tbl snap kl col => [[Some (count_fast_path kl col (nth tbl (tables_of i snap) []))]]
-  | QJoin plan lo snap lt rt lc rc rw =>
-      let L := sort_side (mk_side lc (nth lt (tables_of i snap) [])) in
-      let R := sort_side (mk_side rc (nth rt (tables_of i snap) [])) in
-      flat_rows rw (if (plan =? 0)%N then merge_join (S (length L + length R)) lo L R
-                    else if (plan =? 1)%N then lookup_join lo L R
-                    else nl_join lo L R)
+  | QJoin plan lo snap lt rt lc rc rw ord =>
+      let lrows := nth lt (tables_of i snap) [] in
+      let rrows := nth rt (tables_of i snap) [] in
+      match ord with
+      | Some (swap, c1, c2) =>
+          if swap then flip_rows (run_sm lo (mk_side rc (sort_rows_by c1 rrows)) (mk_side lc (sort_rows_by c2 lrows)))
+          else flat_rows rw (run_sm lo (mk_side lc (sort_rows_by c1 lrows)) (mk_side rc (sort_rows_by c2 rrows)))
+      | None =>
+          let L := sort_side (mk_side lc lrows) in
+          let R := sort_side (mk_side rc rrows) in
+          flat_rows rw (if (plan =? 0)%N then run_sm lo L R
+                        else if (plan =? 1)%N then lookup_join lo L R
+                        else nl_join lo L R)
+      end
   end.
 
 Definition spec_query (i : input) (q : query) : list row :=
   match q with
-  | QSel tbl snap p _ _ => select p (nth tbl (tables_of i snap) [])
+  | QSel tbl snap p _ _ proj dis lim => shape proj dis lim (select p (nth tbl (tables_of i snap) []))
+  | QGroup tbl snap c => group_count c (nth tbl (tables_of i snap) [])
   | QCount tbl snap _ col => [[Some (count_spec col (nth tbl (tables_of i snap) []))]]
-  | QJoin _ lo snap lt rt lc rc rw =>
+  | QJoin _ lo snap lt rt lc rc rw _ =>
       flat_rows rw (nl_join lo (mk_side lc (nth lt (tables_of i snap) [])) (mk_side rc (nth rt (tables_of i snap) [])))
   end.
 
-Definition q_ordered (q : query) : bool := match q with QSel _ _ _ o _ => o | _ => false end.
+Definition q_ordered (q : query) : bool := match q with QSel _ _ _ o _ _ _ _ => o | _ => false end.
+(* order compared between model and dolt (not part of the property: a join without ORDER BY promises no order) *)
+Definition q_model_ordered (q : query) : bool :=
+  match q with QSel _ _ _ o _ _ _ _ => o | QJoin _ _ _ _ _ _ _ _ (Some _) => true | _ => false end.
 
 Definition model_obs (i : input) : obs :=
   {| o_ranges := map (model_range (i_cur i)) (i_ranges i);
@@ -196,7 +230,7 @@ Fixpoint all2 {A B} (f : A -> B -> bool) (a : list A) (b : list B) : bool :=
 
 Definition obs_eqb_in (i : input) (a b : obs) : bool :=
   all2 robs_eqb (o_ranges a) (o_ranges b)
-  && all2 (fun q ab => rows_same (q_ordered q) (q_rows (fst ab)) (q_rows (snd ab))
+  && all2 (fun q ab => rows_same (q_model_ordered q) (q_rows (fst ab)) (q_rows (snd ab))
                        && Bool.eqb (q_err (fst ab)) (q_err (snd ab)))
           (i_queries i) (combine (o_queries a) (o_queries b))
   && Nat.eqb (length (o_queries a)) (length (o_queries b)).
